@@ -1,6 +1,6 @@
 """C06 / C07: keys and signatures are the fixed function of their inputs that the scheme's
 equations define; the hash primitive is a recorded, audited oracle (HashOracle.tla)."""
-import os, time, json
+import os, time, json, re
 from common import *
 import kit
 
@@ -51,9 +51,9 @@ def check_C07(tier):
     calls = sum(1 for _ in open(olog)) if os.path.exists(olog) else 0
     return kit.finish("C07", tier, t0, design, [v],
         extra_cov={"oracle_calls": calls, "iterations_histogram": st.get("iterations_histogram"),
-                   "rule": "seeded (seed, message): key generation and signing recomputed by TLC from DilithiumEq.tla with SHAKE as an oracle (standard library in a helper process): complete for seed expansion, rho/key/tr, s1, s2, y / challenge / z and the z norm of EVERY loop iteration, packed z, hint canonicity; at seeded coefficient positions for t = A s1 + s2 (Power2Round, t1, t0) and w = A y (decomposition, c s2, c t0, hint bit); repeated signing in other call orders; the six samplers on boundary streams"},
+                   "rule": "seeded (seed, message): key generation and signing recomputed by TLC from DilithiumEq.tla with SHAKE as an oracle (standard library in a helper process): COMPLETE: KeyGen_spec(seed) gives the public and secret key bytes; Sign_spec(sk, message) is run iteration by iteration (y, w = A y through the NTT-domain matrix, w1, c~ = H(mu || pack(w1)), c, z, the three exact norms, all hints), every iteration must leave through the logged exit and the accepted one must give the signature bytes; 1500+ loop events decide every exit from exact norms (tests met with equality are counted); repeated signing in other call orders; the six samplers on boundary streams"},
         assumptions=["SHAKE-128/256 are trusted (golang.org/x/crypto/sha3 called directly by cmd/hashtool)",
-                     "dense products A s1 and A y are checked at seeded coefficient positions, not completely: the challenge seed c~ = H(mu || w1) is taken from the library (per iteration, through the signing hook) and not recomputed",
+                     "inputs (seeds, messages) are sampled; every sampled key and signature is recomputed completely",
                      "the matrix A is sampled in the NTT domain as the Dilithium specification prescribes; NTT is defined by evaluation at the roots of X^256+1 and computed by a butterfly network proved equal to it on all unit vectors"])
 
 def judge_sharded_oracle(label, module, cfg, trace, env, expect, shards, heavy=('"ev":"keygen"', '"ev":"sign"')):
@@ -71,6 +71,10 @@ def judge_sharded_oracle(label, module, cfg, trace, env, expect, shards, heavy=(
         with open(pth, "w") as f:
             f.writelines(lines[i] for i in idxs)
         e = dict(env)
+        # events of one key refer to that key's table (field "plan")
+        m = re.search(r'"plan":(\d+)', lines[idxs[0]][-40:] + lines[idxs[0]][:4000])
+        if m and os.path.exists(env["VERIF_TABLE"] + ".p" + m.group(1)) and len({re.search(r'"plan":(\d+)', lines[i][-40:] + lines[i][:4000]).group(1) for i in idxs if re.search(r'"plan":(\d+)', lines[i][-40:] + lines[i][:4000])}) == 1:
+            e["VERIF_TABLE"] = env["VERIF_TABLE"] + ".p" + m.group(1)
         e["VERIF_ORACLE_REQ"] = env["VERIF_ORACLE_REQ"] + ".g%d" % gi
         e["VERIF_ORACLE_RESP"] = env["VERIF_ORACLE_RESP"] + ".g%d" % gi
         r = kit.judge("%s-g%d" % (label, gi), module, cfg, pth, env=e, expect_events=len(idxs), heap="6g", timeout=3000)
